@@ -18,3 +18,14 @@ Lemma sb_const_refuted :
   sb_protected (snd (sb_eval sb_pinned_facts 3 sb_filter_frame (SbSetConst sb_n_F (SbLiteral SbLNum)) (sb_st0 [])))
   <> sb_protected (sb_st0 []).
 Proof. vm_compute. discriminate. Qed.
+
+(* F-C19-c: a console handler that serialises the result with all fields hands back the password of an ApiUser
+   the sandboxed expression merely returned (the expression itself read nothing) *)
+Definition sb_t_ApiUser := Eval vm_compute in sb_enc "ApiUser".
+Definition sb_n_password := Eval vm_compute in sb_enc "password".
+Lemma sb_console_refuted :
+  In (SbRdField sb_t_ApiUser sb_n_password)
+     (sb_console_result sb_cur_facts true (SbVObj sb_t_ApiUser (SbShared 1))).
+Proof. vm_compute. tauto. Qed.
+Lemma sb_console_filtered F v : sb_console_result F false v = [].
+Proof. destruct v; reflexivity. Qed.
